@@ -278,4 +278,12 @@ Proof.
   eapply stale_fails_inv; eauto.
 Qed.
 
+(* every request that does not ask for min_version alone fails through a detached handle in EVERY world, whatever
+   history (loads, known classes) produced it; only create_sub_element(_at), set_attribute, get_or_create_sub_element
+   need the file sets of the detached chain *)
+Theorem stale_fails_every_world o h w r w' :
+  needs_version_only o = false -> Detached w h -> principal o = Some h -> place_dependent o = true ->
+  run o w = Val (r, w') -> w' = w /\ failed r.
+Proof. intros Hv. apply stale_fails. rewrite Hv. discriminate. Qed.
+
 End Stale2.
